@@ -3,6 +3,8 @@ package main
 // Evaluation of specification expressions to SMT terms.
 
 import (
+	"os"
+	"regexp"
 	"fmt"
 	"go/constant"
 	"go/types"
@@ -218,13 +220,18 @@ func (vc *VC) eval(e *SExpr, env *Env) *Val {
 		return &Val{T: fmt.Sprintf("(ite %s %s %s)", c.T, a.T, b.T), Ty: pickType(a.Ty, b.Ty)}
 	case "quant":
 		inner := env
-		var decls, guards []string
+		var decls, guards, qnames []string
+		allRefs := true
 		for _, b := range e.Binders {
 			t := vc.resolveType(b.Type, env.pkg, env.imports, true)
 			vc.nquant++
 			name := fmt.Sprintf("q_%s_%d", sanitize(b.Name), vc.nquant)
 			decls = append(decls, fmt.Sprintf("(%s %s)", name, vc.sortOf(t)))
 			inner = inner.with(b.Name, &Val{T: name, Ty: t})
+			qnames = append(qnames, name)
+			if _, isPtr := t.Underlying().(*types.Pointer); !isPtr {
+				allRefs = false
+			}
 			if _, isPtr := t.Underlying().(*types.Pointer); isPtr {
 				// references range over all integers: the same translation is
 				// used where a quantified fact is assumed and where it is proved
@@ -243,6 +250,9 @@ func (vc *VC) eval(e *SExpr, env *Env) *Val {
 			} else {
 				bt = fmt.Sprintf("(and %s %s)", g, bt)
 			}
+		}
+		if pats := refPatterns(bt, qnames, allRefs); pats != "" {
+			return &Val{T: fmt.Sprintf("(%s (%s) (! %s %s))", e.Name, strings.Join(decls, " "), bt, pats), Ty: types.Typ[types.Bool]}
 		}
 		return &Val{T: fmt.Sprintf("(%s (%s) %s)", e.Name, strings.Join(decls, " "), bt), Ty: types.Typ[types.Bool]}
 	case "field":
@@ -747,6 +757,13 @@ func (vc *VC) evalCall(e *SExpr, env *Env) *Val {
 			x := vc.eval(args[0], env)
 			tv := vc.eval(args[1], env)
 			return &Val{T: vc.tagTest(x.T, types.NewPointer(tv.TypeV)), Ty: boolT}
+		case "ptrtag":
+			// ptrtag(T): the dynamic-type tag of a *T held in an interface
+			tv := vc.eval(args[0], env)
+			if !tv.IsType || tv.TypeV == nil {
+				vc.evalFail(env, "ptrtag needs a type")
+			}
+			return &Val{T: fmt.Sprintf("%d", vc.typeTag(types.NewPointer(tv.TypeV))), Ty: MathInt}
 		case "funcis":
 			// funcis(f, name): the function value f is known, at translation
 			// time, to be the named function (decided syntactically)
@@ -990,6 +1007,9 @@ func (vc *VC) flushAxioms() {
 		name := vc.pendingAxioms[0]
 		vc.pendingAxioms = vc.pendingAxioms[1:]
 		for i, ax := range vc.p.db.Axioms {
+			if os.Getenv("GOVC_DEBUG") != "" {
+				fmt.Fprintf(os.Stderr, "axiom %s for %s: done=%v mentions=%v\n", ax.Name, name, vc.axiomDone[i], mentionsFun(ax.Expr, name))
+			}
 			if vc.axiomDone[i] || !mentionsFun(ax.Expr, name) {
 				continue
 			}
@@ -997,6 +1017,7 @@ func (vc *VC) flushAxioms() {
 				vc.axiomDone = map[int]bool{}
 			}
 			vc.axiomDone[i] = true
+			vc.declLog = append(vc.declLog, fmt.Sprintf("axiom:%d", i))
 			func() {
 				defer func() {
 					if r := recover(); r != nil {
@@ -1009,7 +1030,12 @@ func (vc *VC) flushAxioms() {
 				}()
 				env := &Env{vars: map[string]*Val{}, st: vc.st, old: vc.st, pkg: ax.Pkg, imports: ax.Imports, where: "axiom " + ax.Name}
 				v := vc.eval(ax.Expr, env)
+				// an axiom holds everywhere: never sliced away with the block
+				// in which the function happened to be mentioned first
+				saveG := vc.globalFact
+				vc.globalFact = true
 				vc.emit("(assert %s)", v.T)
+				vc.globalFact = saveG
 				vc.used.ExtContracts["axiom "+ax.Name+" ("+ax.Expr.String()+")"] = true
 			}()
 		}
@@ -1070,13 +1096,20 @@ func conjuncts(cl *Clause) []*Clause {
 
 
 // fpredDef is the translation of an fpred: a declared function whose first
-// arguments are the storages its body reads.
+// arguments are the storages its body reads.  The definition is given by one
+// axiom per tuple of storage versions the function is applied to (quantifying
+// over storages themselves makes the solvers give up).
 type fpredDef struct {
 	fname  string
 	heaps  []string
 	hsorts []string
+	hvars  []string
+	pvars  []string
+	psorts []string
 	ptypes []types.Type
 	rtype  types.Type
+	body   string
+	uses   []*PredSpec // fpreds applied inside the body
 }
 
 func (vc *VC) fpredDefinition(p *PredSpec, env *Env) *fpredDef {
@@ -1092,43 +1125,93 @@ func (vc *VC) fpredDefinition(p *PredSpec, env *Env) *fpredDef {
 	st.sym = sym
 	inner := &Env{vars: map[string]*Val{}, st: st, old: st, pkg: p.Pkg, imports: p.Imports, where: env.where + " in fpred " + p.Name}
 	d := &fpredDef{fname: fname}
-	var pvars, psorts []string
 	for _, b := range p.Params {
 		pt := vc.resolveType(b.Type, p.Pkg, p.Imports, true)
 		d.ptypes = append(d.ptypes, pt)
-		v := "pp_" + sanitize(b.Name)
-		pvars = append(pvars, v)
-		psorts = append(psorts, vc.sortOf(pt))
+		v := "pp_" + sanitize(p.Name) + "_" + sanitize(b.Name)
+		d.pvars = append(d.pvars, v)
+		d.psorts = append(d.psorts, vc.sortOf(pt))
 		inner.vars[b.Name] = &Val{T: v, Ty: pt}
 	}
+	saveUses := vc.fpredUses
+	vc.fpredUses = nil
 	vc.noEmit++
 	body := vc.eval(p.Body, inner)
 	vc.noEmit--
+	d.uses = vc.fpredUses
+	vc.fpredUses = saveUses
 	d.rtype = body.Ty
-	d.heaps, d.hsorts = sym.names, sym.sorts
-	var binders, argv, sorts []string
-	for i, v := range sym.vars {
-		binders = append(binders, fmt.Sprintf("(%s %s)", v, sym.sorts[i]))
-		argv = append(argv, v)
-		sorts = append(sorts, sym.sorts[i])
-	}
-	for i, v := range pvars {
-		binders = append(binders, fmt.Sprintf("(%s %s)", v, psorts[i]))
-		argv = append(argv, v)
-		sorts = append(sorts, psorts[i])
-	}
-	rs := vc.sortOf(body.Ty)
-	app := fname
-	decl := fmt.Sprintf("(declare-fun %s (%s) %s)", fname, strings.Join(sorts, " "), rs)
-	if len(argv) > 0 {
-		app = fmt.Sprintf("(%s %s)", fname, strings.Join(argv, " "))
-		decl += fmt.Sprintf("\n(assert (forall (%s) (! (= %s %s) :pattern (%s))))", strings.Join(binders, " "), app, body.T, app)
-	} else {
-		decl += fmt.Sprintf("\n(assert (= %s %s))", app, body.T)
-	}
-	vc.declare(fname, decl)
+	d.body = body.T
+	d.heaps, d.hsorts, d.hvars = sym.names, sym.sorts, sym.vars
+	sorts := append(append([]string{}, d.hsorts...), d.psorts...)
+	vc.declare(fname, fmt.Sprintf("(declare-fun %s (%s) %s)", fname, strings.Join(sorts, " "), vc.sortOf(body.Ty)))
 	vc.fpreds[p.Name] = d
 	return d
+}
+
+// fpredInstance emits the definitional axiom of p for one tuple of storage
+// versions (given per storage name).
+func (vc *VC) fpredInstance(p *PredSpec, d *fpredDef, heapTerm func(name, sort string) string) []string {
+	var hts []string
+	for i, h := range d.heaps {
+		hts = append(hts, heapTerm(h, d.hsorts[i]))
+	}
+	key := "fpinst:" + d.fname + " " + strings.Join(hts, " ")
+	if vc.declared[key] {
+		return hts
+	}
+	body := d.body
+	for i := len(d.hvars) - 1; i >= 0; i-- {
+		body = replaceWord(body, d.hvars[i], hts[i])
+	}
+	app := d.fname
+	args := append(append([]string{}, hts...), d.pvars...)
+	if len(args) > 0 {
+		app = fmt.Sprintf("(%s %s)", d.fname, strings.Join(args, " "))
+	}
+	var ax string
+	if len(d.pvars) > 0 {
+		var binders []string
+		for i, v := range d.pvars {
+			binders = append(binders, fmt.Sprintf("(%s %s)", v, d.psorts[i]))
+		}
+		ax = fmt.Sprintf("(assert (forall (%s) (! (= %s %s) :pattern (%s))))", strings.Join(binders, " "), app, body, app)
+	} else {
+		ax = fmt.Sprintf("(assert (= %s %s))", app, body)
+	}
+	saveG, saveN := vc.globalFact, vc.noEmit
+	vc.globalFact, vc.noEmit = true, 0
+	vc.declare(key, ax)
+	vc.globalFact, vc.noEmit = saveG, saveN
+	for _, u := range d.uses {
+		ud := vc.fpreds[u.Name]
+		if ud != nil {
+			vc.fpredInstance(u, ud, heapTerm)
+		}
+	}
+	return hts
+}
+
+func replaceWord(s, w, by string) string {
+	var b strings.Builder
+	for i := 0; i < len(s); {
+		j := strings.Index(s[i:], w)
+		if j < 0 {
+			b.WriteString(s[i:])
+			break
+		}
+		j += i
+		before := j == 0 || s[j-1] == ' ' || s[j-1] == '('
+		after := j+len(w) == len(s) || s[j+len(w)] == ' ' || s[j+len(w)] == ')'
+		b.WriteString(s[i:j])
+		if before && after {
+			b.WriteString(by)
+		} else {
+			b.WriteString(w)
+		}
+		i = j + len(w)
+	}
+	return b.String()
 }
 
 func (vc *VC) applyFpred(p *PredSpec, args []*SExpr, env *Env) *Val {
@@ -1137,8 +1220,14 @@ func (vc *VC) applyFpred(p *PredSpec, args []*SExpr, env *Env) *Val {
 	}
 	d := vc.fpredDefinition(p, env)
 	var ts []string
-	for i, h := range d.heaps {
-		ts = append(ts, vc.getIn(env.st, h, d.hsorts[i]))
+	if env.st.sym != nil {
+		// inside the body of another fpred: the storages are its bound names
+		for i, h := range d.heaps {
+			ts = append(ts, vc.getIn(env.st, h, d.hsorts[i]))
+		}
+		vc.fpredUses = append(vc.fpredUses, p)
+	} else {
+		ts = vc.fpredInstance(p, d, func(name, sort string) string { return vc.getIn(env.st, name, sort) })
 	}
 	for i := range p.Params {
 		av := vc.eval(args[i], env)
@@ -1155,4 +1244,83 @@ func (vc *VC) applyFpred(p *PredSpec, args []*SExpr, env *Env) *Val {
 		return &Val{T: d.fname, Ty: d.rtype}
 	}
 	return &Val{T: fmt.Sprintf("(%s %s)", d.fname, strings.Join(ts, " ")), Ty: d.rtype}
+}
+
+var flatTermRe = regexp.MustCompile(`\((?:select|fp_[^\s()]+|sf_[^\s()]+) [^()]*\)`)
+
+// refPatterns chooses explicit triggers for a quantifier whose bound variables
+// are all references: the flat terms (field reads, ghost-map reads, spec
+// function applications) that mention them.  Without this the solver may pick
+// a single large trigger that never matches.
+func refPatterns(body string, qnames []string, allRefs bool) string {
+	if !allRefs || len(qnames) == 0 {
+		return ""
+	}
+	seen := map[string]bool{}
+	var terms []string
+	for _, m := range flatTermRe.FindAllString(body, -1) {
+		if seen[m] {
+			continue
+		}
+		for _, q := range qnames {
+			if containsWord(m, q) {
+				seen[m] = true
+				terms = append(terms, m)
+				break
+			}
+		}
+	}
+	if len(terms) == 0 {
+		return ""
+	}
+	var pats []string
+	if len(qnames) == 1 {
+		for i, t := range terms {
+			if i >= 6 {
+				break
+			}
+			pats = append(pats, ":pattern ("+t+")")
+		}
+		return strings.Join(pats, " ")
+	}
+	// several variables: one multi-pattern with a term for each variable
+	var multi []string
+	for _, q := range qnames {
+		found := ""
+		for _, t := range terms {
+			if containsWord(t, q) {
+				found = t
+				break
+			}
+		}
+		if found == "" {
+			return ""
+		}
+		dup := false
+		for _, m := range multi {
+			if m == found {
+				dup = true
+			}
+		}
+		if !dup {
+			multi = append(multi, found)
+		}
+	}
+	return ":pattern (" + strings.Join(multi, " ") + ")"
+}
+
+func containsWord(s, w string) bool {
+	for i := 0; ; {
+		j := strings.Index(s[i:], w)
+		if j < 0 {
+			return false
+		}
+		j += i
+		before := j == 0 || s[j-1] == ' ' || s[j-1] == '('
+		after := j+len(w) == len(s) || s[j+len(w)] == ' ' || s[j+len(w)] == ')'
+		if before && after {
+			return true
+		}
+		i = j + len(w)
+	}
 }
